@@ -114,7 +114,10 @@ func sameObs(a, b rawObs, regDet bool) bool {
 
 var idxBoundary = []string{"", "0", "9", "5", "00", "99", "05", "50", "10", "000", "123", "0 ", " 0", " 1", "1 ", "-1", "+1",
 	"0a", "a0", "aa", "0x", "1e", "٠١", "٠", "１２", "１", "০১", "/0", ":0", "0/", "0:", "9:", "/9", "1.", ".1", "  ",
-	"\t1", "1\n", "0\x00", "\x000", "1\x7f", "99 ", "099", "-01", "1-", "--", "ab", "AZ", "0O", "O0", "l1", "१२"}
+	"\t1", "1\n", "0\x00", "\x000", "1\x7f", "99 ", "099", "-01", "1-", "--", "ab", "AZ", "0O", "O0", "l1", "१२",
+	// two digits followed by something: a separator the runtime uses itself (index-name), other separators, more digits
+	"05-x", "10-", "00-00", "99-a-b", "42--", "05-", "05-05", "12-34-56", "00-logger", "05_x", "05.x", "05 x", "05/x", "05:x",
+	"05+x", "05,x", "05;x", "05=x", "05#2", "0500", "05x", "05-\x00", "1234567890", "05--05", "-05-x", "5-05", "05\t-x"}
 
 var nameCorpus = []string{"", "a", "logger", "x-y", " ", "-", "00", "名前", "a\tb", "plugin.with.dots", "05-nested", strings.Repeat("n", 200), "\x01", "ümlaut"}
 
@@ -492,8 +495,12 @@ func (g *scriptGen) badIdx() string {
 		var s string
 		if g.r.Intn(3) > 0 {
 			s = g.idx[g.r.Intn(len(g.idx))]
-		} else {
+		} else if g.r.Intn(2) == 0 {
 			s = fmt.Sprint(g.r.Intn(2000) - 500)
+		} else { // two digits, a separator, anything
+			seps := []string{"-", "--", "_", ".", " ", "/", ":", "-0", "0"}
+			tails := []string{"", "x", "logger", "5", "05", "a-b", "-"}
+			s = fmt.Sprintf("%02d%s%s", g.r.Intn(100), seps[g.r.Intn(len(seps))], tails[g.r.Intn(len(tails))])
 		}
 		if !indexSpec(s) {
 			return s
@@ -703,12 +710,13 @@ func driveHandshakes(c *hx.Ctx) error {
 	}
 
 	// --- phase 3: the two time-outs configured far apart, and a peer that registers between them.  The
-	// deadline of the register phase is the REGISTRATION time-out: (A) registration 300 ms, request 6 s, a
-	// peer registering after 1.5 s is refused; (B) registration 4 s, request 500 ms, a peer registering after
+	// deadline of the register phase is the REGISTRATION time-out: (A) registration 1.3 s (above one second:
+	// a deadline re-armed by some periodic event would never fire), request 8 s, a peer registering after 3 s is
+	// refused and a good plugin queued behind a silent one is served once the 1.3 s have passed; (B) registration 4 s, request 500 ms, a peer registering after
 	// 1.5 s is served.  The delayed peer is the first connection of its case (the runtime's clock for a
 	// connection starts when the sequential accept loop reaches it).
 	dl := c.NewShard("deadline", regImports, "reg_case", "corr_reg", "holds_reg", 40)
-	for _, cfg := range []struct{ regT, reqT int }{{300, 6000}, {4000, 500}} {
+	for _, cfg := range []struct{ regT, reqT, at int }{{1300, 8000, 3000}, {4000, 500, 1500}} {
 		adaptation.SetPluginRegistrationTimeout(time.Duration(cfg.regT) * time.Millisecond)
 		adaptation.SetPluginRequestTimeout(time.Duration(cfg.reqT) * time.Millisecond)
 		at := func(ms int) script {
@@ -717,8 +725,8 @@ func driveHandshakes(c *hx.Ctx) error {
 			return sc
 		}
 		dcases := [][]script{
-			{at(1500), g.make("good")},
-			{at(1500), g.make("bad-mask"), g.make("good")},
+			{at(cfg.at), g.make("good")},
+			{at(cfg.at), g.make("bad-mask"), g.make("good")},
 		}
 		if cfg.regT < cfg.reqT { // a silent peer costs the longer of the two time-outs: only where that one is short
 			dcases = append(dcases, []script{g.make("reg-never"), g.make("good")})
@@ -726,7 +734,7 @@ func driveHandshakes(c *hx.Ctx) error {
 			dcases = append(dcases, []script{g.make("cfg-silent"), g.make("good")})
 		}
 		for n := 0; n < c.Pick(0, 6); n++ {
-			dcases = append(dcases, []script{at(1200 + g.r.Intn(600)), g.make("good")})
+			dcases = append(dcases, []script{at(cfg.at - 300 + g.r.Intn(600)), g.make("good")})
 		}
 		if err := runClockCases(c, dl, "deadline", dcases, func(cs []script) (time.Duration, int) {
 			return time.Duration(cs[0].AtMs+cfg.regT+cfg.reqT) * time.Millisecond, 1 // generous: it only extends the wait for the sentinel
@@ -999,6 +1007,6 @@ func driveRegister(c *hx.Ctx) error {
 		}
 	}
 	c.Stats.Exhaustive = !c.Quick()
-	c.Stats.Rule = "index: CheckPluginIndex on a boundary corpus, all 100 valid indices, all pairs over a 14-byte alphabet and random byte strings; register: per case 4-20 scripted raw plugins (mux+ttrpc spoken directly) connect in order to one fresh Adaptation, at least one bad one (empty name, bad index from the corpus, mask with extra/negative bits, configure error/close, early close, sync error) ahead of a good one, then a sentinel, then all 13 events are fired once; whatever the runtime fails to do within 20 s (a sentinel never synchronised, a sync block that cannot be taken, a peer whose registration step never ends: closed by the driver and recorded as not registered / never configured / never synchronised / no events) is an observation judged by the oracle, and after 3 such cases the rest of the stream is skipped; non-trivial = bad and several good connections in one case; stall: the same with 1-3 peers that never register / register late / never answer Configure or Synchronize under 400 ms time-outs (clock-dependent disagreements re-run alone up to 3 times); deadline: the two time-outs far apart (registration 300 ms / request 6 s, and 4 s / 500 ms) and a first connection that registers 1.5 s after connecting: refused exactly when that is after the REGISTRATION time-out, whatever the request time-out; socket: real Start in a helper subprocess per umask (quick: 40 incl. boundaries, thorough: all 512) on three nested not yet existing directories, and with external connections disabled"
+	c.Stats.Rule = "index: CheckPluginIndex on a boundary corpus, all 100 valid indices, all pairs over a 14-byte alphabet and random byte strings; register: per case 4-20 scripted raw plugins (mux+ttrpc spoken directly) connect in order to one fresh Adaptation, at least one bad one (empty name, bad index from the corpus, mask with extra/negative bits, configure error/close, early close, sync error) ahead of a good one, then a sentinel, then all 13 events are fired once; whatever the runtime fails to do within 20 s (a sentinel never synchronised, a sync block that cannot be taken, a peer whose registration step never ends: closed by the driver and recorded as not registered / never configured / never synchronised / no events) is an observation judged by the oracle, and after 3 such cases the rest of the stream is skipped; non-trivial = bad and several good connections in one case; stall: the same with 1-3 peers that never register / register late / never answer Configure or Synchronize under 400 ms time-outs (clock-dependent disagreements re-run alone up to 3 times); deadline: the two time-outs far apart (registration 1.3 s / request 8 s with a first connection that registers after 3 s or never, and 4 s / 500 ms with one that registers after 1.5 s): refused exactly when that is after the REGISTRATION time-out, whatever the request time-out; socket: real Start in a helper subprocess per umask (quick: 40 incl. boundaries, thorough: all 512) on three nested not yet existing directories, and with external connections disabled"
 	return nil
 }
